@@ -13,14 +13,15 @@ class Unsupported(Exception):
 class Obj:
     """Reference to a heap object.  kind None = plain object, 'arr' = numeric array / memoryview,
     'seq' = Python sequence (tuple/list object) with symbolic length."""
-    __slots__ = ('ref', 'cls', 'kind', 'elem', 'ndim')
+    __slots__ = ('ref', 'cls', 'kind', 'elem', 'ndim', 'view')
 
-    def __init__(self, ref, cls=None, kind=None, elem=None, ndim=1):
+    def __init__(self, ref, cls=None, kind=None, elem=None, ndim=1, view=None):
         self.ref = ref
         self.cls = cls
         self.kind = kind
         self.elem = elem
         self.ndim = ndim
+        self.view = view        # (base Obj, 'col'|'row', fixed index term): a 1-d view of a 2-d array
 
     def __repr__(self):
         return 'Obj(%s:%s%s)' % (self.ref, self.cls, '' if not self.kind else ' %s:%s:%d' % (self.kind, self.elem, self.ndim))
